@@ -17,8 +17,10 @@ use std::sync::Arc;
 
 pub const BASE: &str = "opc.tcp://127.0.0.1:4855";
 pub const ENC: SecurityPolicy = SecurityPolicy::Basic256Sha256;
-/// requested session timeout (ms): the largest the server grants, so that real time never gets near it
-pub const TIMEOUT_MS: f64 = 60000.0;
+/// one abstract time unit (ms) and the session timeout asked for an abstract timeout of 2 ("between 2 and 3 units"): real
+/// time spent by a case (milliseconds) never gets near the 10 s margins
+pub const UNIT_MS: f64 = 20000.0;
+pub const TIMEOUT_MS: f64 = 50000.0;
 
 pub struct World {
     pub srv: Srv,
